@@ -9,7 +9,7 @@
 #include "h.h"
 
 /* ------------------------------------------------------------------ wraps */
-int in_lib = 0;              /* set while a library routine runs */
+volatile int in_lib = 0;              /* set while a library routine runs */
 long long clk_sec = 0, clk_nsec = 0;
 int clk_calls = 0;
 
@@ -162,6 +162,7 @@ int main(void) {
     static char line[1 << 20];
     char *toks[MAX_TOKS];
     setvbuf(stdout, NULL, _IOFBF, 1 << 16);
+    int always_trace = getenv("VERIF_TRACE") != NULL;
     while (fgets(line, sizeof line, stdin)) {
         size_t L = strlen(line);
         while (L && (line[L - 1] == '\n' || line[L - 1] == '\r')) line[--L] = 0;
@@ -174,7 +175,9 @@ int main(void) {
             for (const struct op *o = all_ops[g]; o->name; o++)
                 if (strcmp(o->name, toks[0]) == 0) {
                     ledger_reset();
+                    if (always_trace) trace_on = 1;
                     o->fn(nt, toks);
+                    if (always_trace) printf(" TRACE[%s]", trace_buf);
                     found = 1;
                     break;
                 }
